@@ -124,8 +124,11 @@ where
         // start ticker for keep-alive packets, it has to be sent at least every 20 seconds.
         // Then, the client has 15 seconds to respond with a keep-alive packet. We ensure that only
         // one keep-alive is in transit at any time and has to be answered before the next is sent.
+        // The timer is not polled while an adapter is awaited outside the keep-alive handling (e.g. a slow
+        // authentication): a tick that is noticed late must push the following one back by a whole
+        // period, or the client is left with less than that to answer the keep-alive it was just sent.
         let mut interval = tokio::time::interval(Duration::from_secs(KEEP_ALIVE_INTERVAL));
-        interval.set_missed_tick_behavior(tokio::time::MissedTickBehavior::Skip);
+        interval.set_missed_tick_behavior(tokio::time::MissedTickBehavior::Delay);
 
         Self {
             stream: CipherStream::from_stream(stream),
